@@ -141,6 +141,74 @@ func checkC01(ctx *Ctx, r *Report, tier string) {
 	ruleBB6(ctx, r)
 	ruleBB7(ctx, r)
 	ruleBB8(r, ctors)
+	ruleBB9(r, ctors)
+}
+
+// ruleBB9: ScaleTwistExtrude3D scales in the fixed frame what the twist has turned: at height z
+// the section is the profile rotated by the twist angle and then stretched by up to scale.X
+// along x and scale.Y along y (1 at the bottom, scale at the top). A profile point at radius R
+// can therefore reach R·max(1, scale.X) in x and R·max(1, scale.Y) in y, whatever direction it
+// started in. (The radius of the hull of the box and its scaled image - the formula this rule
+// replaced in BB-4 - treats the scale as applied in the untwisted frame and is too small for
+// anisotropic scales.) Decided by evaluating the closed form of the box at sample parameters:
+// a refutation is a parameter set for which a box-shaped profile has material outside the box.
+func ruleBB9(r *Report, ctors []bbCtor) {
+	for i := range ctors {
+		c := &ctors[i]
+		if c.fn.Name() != "ScaleTwistExtrude3D" {
+			continue
+		}
+		op := paramName(c.fn, 0)
+		hN, sN := paramName(c.fn, 1), paramName(c.fn, 3)
+		bad, tried := "", 0
+		boxes := [][4]float64{{-1, -10, 1, 10}, {-10, -1, 10, 1}, {2, 3, 5, 4}, {-6, -2, -5, 7}, {-1, -1, 1, 1}, {0, 0, 3, 0.5}}
+		scales := [][2]float64{{3, 1}, {1, 3}, {0.5, 2}, {2, 2}, {0.5, 0.5}, {1, 1}, {4, 0.25}}
+		for _, b := range boxes {
+			for _, sc := range scales {
+				env := map[string]float64{
+					bbAtom(op, "Min", "X").S: b[0], bbAtom(op, "Min", "Y").S: b[1], bbAtom(op, "Max", "X").S: b[2], bbAtom(op, "Max", "Y").S: b[3],
+					hN: 10, paramName(c.fn, 2): 3.141592653589793, sN + ".X": sc[0], sN + ".Y": sc[1],
+				}
+				R := 0.0
+				for _, x := range []float64{b[0], b[2]} {
+					for _, y := range []float64{b[1], b[3]} {
+						R = math.Max(R, math.Hypot(x, y))
+					}
+				}
+				want := map[string]float64{
+					"Max.X": R * math.Max(1, sc[0]), "Min.X": -R * math.Max(1, sc[0]),
+					"Max.Y": R * math.Max(1, sc[1]), "Min.Y": -R * math.Max(1, sc[1]),
+					"Max.Z": 5, "Min.Z": -5,
+				}
+				okAll := true
+				for comp, w := range want {
+					t := c.box[comp]
+					if t == nil {
+						okAll = false
+						continue
+					}
+					g, ok := evalFloat(stripConv(t), env)
+					if !ok {
+						okAll = false
+						continue
+					}
+					short := (strings.HasPrefix(comp, "Max.") && g < w-1e-9*math.Abs(w)) || (strings.HasPrefix(comp, "Min.") && g > w+1e-9*math.Abs(w))
+					if short && len(bad) < 300 {
+						bad += fmt.Sprintf(" profile box [%g,%g]x[%g,%g], scale (%g,%g): %s = %.4g, the twisted and scaled profile reaches %.4g;", b[0], b[2], b[1], b[3], sc[0], sc[1], comp, g, w)
+					}
+				}
+				if okAll {
+					tried++
+				}
+			}
+		}
+		if tried == 0 {
+			r.undecided("BB-9", c.key, c.fn.Pos(), "the box is not a closed form that can be evaluated")
+			continue
+		}
+		r.check("BB-9", c.key+"|box-covers-the-twisted-then-scaled-profile", c.fn.Pos(), bad == "", fmt.Sprintf("%d parameter sets: |x| <= R·max(1,scale.X), |y| <= R·max(1,scale.Y), |z| <= height/2 must be inside the box;%s", tried, bad))
+	}
+	r.floor("BB-9", 1)
 }
 
 // ruleBB8: the one shape documented as unbounded (its box is a placeholder point, its material is
@@ -644,17 +712,6 @@ func ruleBB4(ctx *Ctx, r *Report, ctors []bbCtor) {
 			sym(m, "Z", hf(A("height")))
 			return m
 		}, "±(distance of the farthest profile-box corner from the axis)"},
-		{"ScaleTwistExtrude3D", func() map[string][]*Term {
-			m := map[string][]*Term{}
-			b := bb("sdf")
-			mx := func(ax string) *Term { return Call("math.Max", b("Max", ax), Mul(b("Max", ax), A("scale."+ax))) }
-			mn := func(ax string) *Term { return Call("math.Min", b("Min", ax), Mul(b("Min", ax), A("scale."+ax))) }
-			R := maxRadius(mx, mn)
-			sym(m, "X", R)
-			sym(m, "Y", R)
-			sym(m, "Z", hf(A("height")))
-			return m
-		}, "±(farthest corner of the hull of the profile box and its scaled image)"},
 		{"Transform3D", func() map[string][]*Term { return affineHull("sdf", "matrix", 3) }, "interval hull of the affine image of the operand box"},
 		{"Transform2D", func() map[string][]*Term { return affineHull("sdf", "m", 2) }, "interval hull of the affine image of the operand box"},
 		{"ScaleUniform3D", func() map[string][]*Term {
